@@ -25,6 +25,7 @@ type reqScenario struct {
 	Kind    string   `json:"kind"`
 	Method  string   `json:"method"`
 	Major   int      `json:"major"`
+	Minor   int      `json:"minor"`
 	Ctype   string   `json:"ctype"`
 	Codecs  []string `json:"codecs"`
 	Enc     string   `json:"enc"`
@@ -272,10 +273,8 @@ func runReq(raw json.RawMessage, seed int64, rec *Rec) {
 	}
 	req := httptest.NewRequest("POST", "http://verif.test"+reqProc, bytes.NewReader(body))
 	req.Method = s.Method
-	req.ProtoMajor, req.ProtoMinor = s.Major, 0
-	if s.Major == 1 {
-		req.ProtoMinor = 1
-	}
+	req.ProtoMajor, req.ProtoMinor = s.Major, s.Minor
+	req.Proto = fmt.Sprintf("HTTP/%d.%d", s.Major, s.Minor)
 	if s.Ctype != "" {
 		req.Header.Set("Content-Type", s.Ctype)
 	}
